@@ -62,15 +62,22 @@ GRAPHS = {
     'samename2':   [('a', 1, ('const',), ('const',)), ('x', 2, ('of', 'a'), ('const',))],
     'samename3':   [('b', 1, ('const',), ('const',)), ('x', 2, ('const',), ('of', 'b')), ('y', 2, ('of', 'x'), ('of', 'b'))],
     'independent3': [('u', 1, ('const',), ('const',)), ('w', 1, ('const',), ('const',)), ('x', 2, ('of', 'w'), ('const',))],
+    # BOTH parameters of y are callables of the same two variables: fixing one of them defers both callables (partially applied), fixing the other resolves them
+    'twocallables3': [('g', 1, ('const',), ('const',)), ('x', 2, ('const',), ('const',)), ('y', 2, ('of2', 'x', 'g'), ('of2', 'x', 'g'))],
     'twoparent3':  [('d', 1, ('const',), ('const',)), ('x', 2, ('const',), ('const',)), ('y', 2, ('of2', 'x', 'd'), ('const',))],
 }
 
 
-def _mk_callable(names):
+def _mk_callable(names, slot='a'):
     # builds  lambda <names>: tuple of the arguments  (the resolved hyper-parameter handed to the uninterpreted density)
     # (NOT the identity - 2 v + 1 per argument: with identity callables a value handed over without evaluating the callable would go unnoticed)
-    src = f"lambda {', '.join(names)}: np.concatenate([2 * np.atleast_1d(v) + 1 for v in ({', '.join(names)},)])"
+    # the callables of the two parameter slots differ (a: 2 v + 1, b: 3 v - 2): one slot's callable evaluated in the place of the other's would go unnoticed otherwise
+    k, o = _COEF[slot]
+    src = f"lambda {', '.join(names)}: np.concatenate([{k} * np.atleast_1d(v) + ({o}) for v in ({', '.join(names)},)])"
     return eval(src, {'np': np})
+
+
+_COEF = {'a': (2, 1), 'b': (3, -2)}
 
 
 def build(c, gname):
@@ -79,7 +86,7 @@ def build(c, gname):
         def slot(spec, s):
             if spec[0] == 'const':
                 v = c.real(f'{nm}_{s}'); consts[(nm, s)] = v; return v
-            return _mk_callable(list(spec[1:]))
+            return _mk_callable(list(spec[1:]), s)
         facs.append((UFDist2 if nm in ('a', 'b') else UFDist)(slot(aspec, 'a'), slot(bspec, 'b'), ctx=c, tag='l_' + nm, geometry=dim, name=nm))
     return facs, consts
 
@@ -90,7 +97,7 @@ def joint_logd_spec(c, gname, consts, vals):
         def res(spec, s):
             if spec[0] == 'const': return [consts[(nm, s)]]
             out = []
-            for p in spec[1:]: out += list(2 * np.atleast_1d(vals[p]) + 1)
+            for p in spec[1:]: out += list(_COEF[s][0] * np.atleast_1d(vals[p]) + _COEF[s][1])
             return out
         tot = tot + c.uf('l_' + nm, *(res(aspec, 'a') + res(bspec, 'b') + list(np.atleast_1d(vals[nm]))))
     return tot
